@@ -3128,3 +3128,8 @@ def iter_position(I, st, fr, t, a):
     for bit, k in reversed(leaves):
         out = I.merge(bit, some(BV.const(k, 64), ty), out)
     return out, st
+
+
+@summary('std::option::Option::<T>::map_or_else')
+def opt_map_or_else(I, st, fr, t, a):
+    return opt_split(I, st, a[0], lambda s, x: I.call_closure(s, a[2], [x]), lambda s: I.call_closure(s, a[1], []))
